@@ -1,4 +1,4 @@
-CONSTANTS Carriers = {"vps", "p1", "p2"} Vals = {"a", "b", "u"} WssWords = {"x", "y", "bad"} MaxRecv = 5 UnknownOnce = TRUE XdsGuard = TRUE
+CONSTANTS Carriers = {"vps", "p1", "p2"} Vals = {"a", "b", "u"} WssWords = {"x", "y", "bad"} MaxRecv = 5 UnknownOnce = TRUE XdsGuard = TRUE Calls = {}
 SPECIFICATION GSpec
 VIEW gview
 CONSTRAINT Dump
